@@ -14,7 +14,10 @@ impl PropsT { #[verifier::external_body] pub fn phantom(&self) -> Option<bool> {
 #[verifier::external_body]
 pub fn verif_unwrap_or_default(o: Option<bool>) -> bool { unimplemented!() }
 /// `Arc<Record<E>>`
-pub struct RecT { }
+/// how a looked-up record was acquired in the eviction container: 0 = not at all (get_noop), 1 = get_immutable, 2 = get_mutable
+pub struct RecT { pub acquired_by: Ghost<int> }
+/// what the eviction algorithm of this cache requires (`E::acquire()`): the same code
+pub uninterp spec fn spec_acquire_kind() -> int;
 impl RecT {
     #[verifier::external_body] pub fn key(&self) -> &u64 { unimplemented!() }
     #[verifier::external_body] pub fn value(&self) -> &u64 { unimplemented!() }
@@ -86,15 +89,15 @@ impl NotifierT { #[verifier::external_body] pub fn send(self, v: core::result::R
 pub struct EvictionT { }
 impl EvictionT { #[verifier::external_body] pub fn update(&mut self, capacity: usize, config: Option<u8>) -> core::result::Result<(), ErrT> { unimplemented!() } }
 pub struct ErrT { }
-pub struct GuardT { pub capacity: usize, pub eviction: EvictionT }
+pub struct GuardT { pub capacity: usize, pub eviction: EvictionT, pub inflights: InflightMutexT }
 impl GuardT {
     #[verifier::external_body] pub fn emplace(&mut self, record: RecT, garbages: &mut Vec<(Event, RecT)>, notifiers: &mut Vec<NotifierT>) { }
     #[verifier::external_body] pub fn evict(&mut self, target: usize, garbages: &mut Vec<(Event, RecT)>) { }
     #[verifier::external_body] pub fn remove(&mut self, hash: u64, key: &u64) -> Option<RecT> { unimplemented!() }
     #[verifier::external_body] pub fn clear(&mut self, garbages: &mut Vec<RecT>) { }
-    #[verifier::external_body] pub fn get_noop(&self, hash: u64, key: &u64) -> Option<RecT> { unimplemented!() }
-    #[verifier::external_body] pub fn get_immutable(&self, hash: u64, key: &u64) -> Option<RecT> { unimplemented!() }
-    #[verifier::external_body] pub fn get_mutable(&mut self, hash: u64, key: &u64) -> Option<RecT> { unimplemented!() }
+    #[verifier::external_body] pub fn get_noop(&self, hash: u64, key: &u64) -> (r: Option<RecT>) ensures r matches Some(x) ==> x.acquired_by@ == 0 { unimplemented!() }
+    #[verifier::external_body] pub fn get_immutable(&self, hash: u64, key: &u64) -> (r: Option<RecT>) ensures r matches Some(x) ==> x.acquired_by@ == 1 { unimplemented!() }
+    #[verifier::external_body] pub fn get_mutable(&mut self, hash: u64, key: &u64) -> (r: Option<RecT>) ensures r matches Some(x) ==> x.acquired_by@ == 2 { unimplemented!() }
     #[verifier::external_body] pub fn release_immutable(&self, record: &RecT) { }
     #[verifier::external_body] pub fn release_mutable(&mut self, record: &RecT) { }
 }
@@ -127,7 +130,15 @@ pub enum Op { Noop, Immutable(u8), Mutable(u8) }
 #[verifier::external_body]
 pub fn verif_release_op() -> Op { unimplemented!() }
 #[verifier::external_body]
-pub fn verif_acquire_op() -> Op { unimplemented!() }
+pub fn verif_acquire_op() -> (r: Op) ensures (r is Noop) == (spec_acquire_kind() == 0), (r is Immutable) == (spec_acquire_kind() == 1), (r is Mutable) == (spec_acquire_kind() == 2) { unimplemented!() }
+pub struct InflightMutexT { }
+pub enum RawGetOrFetch { Hit(Option<RawCacheEntry>), Miss(u8) }
+/// the local closure `extract` of get_or_fetch_inner (a hit becomes a handle; a miss registers in the in-flight table):
+/// the record it is given must have been acquired the way the algorithm requires (under LRU: pinned)
+#[verifier::external_body]
+pub fn verif_extract(key: &u64, opt: Option<RecT>, inflights: &InflightMutexT) -> RawGetOrFetch
+    requires opt matches Some(x) ==> x.acquired_by@ == spec_acquire_kind(), // @label a_get_or_fetch_hit_is_acquired_the_way_the_algorithm_requires
+{ unimplemented!() }
 pub struct CacheT { pub inner: InnerT, pub pipe: PipeT }
 pub open spec fn shards_ok(c: &CacheT) -> bool { c.inner.shards@.len() > 0 }
 
@@ -165,6 +176,7 @@ impl CacheT {
 //@tail
         };
         assert(verif_r is Some ==> verif_handles == 1); // @label a_successful_lookup_hands_the_record_to_exactly_one_handle
+        assert(verif_r matches Some(e) ==> e.record.acquired_by@ == spec_acquire_kind()); // @label a_looked_up_record_is_acquired_the_way_the_algorithm_requires
         verif_r
 //@end
 //@region foyer-memory/src/raw.rs :: impl~^impl<E, S, I> RawCache<E, S, I> where/fn touch name=touch whole=1 rules=lock-scope,option-map,handle-ctor sub=@E::acquire\(\)@verif_acquire_op()@
@@ -181,6 +193,16 @@ impl CacheT {
         verif_r
 //@end
 
+
+// ---- RawCache::get_or_fetch_inner, the lookup arms: a hit of get_or_fetch is a lookup like any other -- under each
+// acquire kind the record must come from the matching get_* (which acquires it: under LRU moves it to the pin list)
+//@region foyer-memory/src/raw.rs :: impl~^impl<E, S, I> RawCache<E, S, I> where/fn get_or_fetch_inner name=get_or_fetch_lookup start=/match E::acquire\(\) \{/ stmts=1 rules=lock-scope sub=@E::acquire\(\)@verif_acquire_op()@ sub=@\bextract\(key,@verif_extract(key,@
+//@head
+    fn get_or_fetch_lookup(&self, hash: u64, key: &u64) -> (r: RawGetOrFetch)
+        requires shards_ok(self),
+//@prologue
+        let ghost mut verif_locks: int = 0;
+//@end
 }
 
 } // verus!
